@@ -166,7 +166,7 @@ Section AtLib.
       2:{ pose proof (Hup el Hin Hp). lia. }
       pose proof (ws_up _ Hwf el ep Hin Hfp) as Hlt.
       assert (Hpne : bparent (eb el) <> ri L).
-      { destruct (ws_id _ Hwf el Hin) as (_ & _ & Hs). unfold key in Hk. congruence. }
+      { destruct (ws_id _ Hwf el Hin) as (_ & Hs). unfold key in Hk. congruence. }
       destruct (N.eqb_spec (bnum (eb ep)) target) as [Eq|Eq].
       + injection H as <-. right. split; cbn [ri]; [exact Hpne|]. intros e He. rewrite Hfp in He. injection He as <-. lia.
       + destruct (N.ltb_spec (bnum (eb ep)) target) as [Lt|Lt].
